@@ -35,6 +35,9 @@ pub enum OpKind {
     Lock,
     Read,
     Len,
+    /// `Write::flush` on a writable handle: a failure here is an error *after* the bytes of the
+    /// preceding writes have been applied
+    Flush,
 }
 
 impl OpKind {
@@ -54,6 +57,7 @@ impl OpKind {
             OpKind::Lock => "lock",
             OpKind::Read => "read",
             OpKind::Len => "len",
+            OpKind::Flush => "flush",
         }
     }
     pub fn is_mutating(self) -> bool {
@@ -69,7 +73,7 @@ impl OpKind {
                 | OpKind::Lock
         )
     }
-    pub const ALL: [OpKind; 14] = [
+    pub const ALL: [OpKind; 15] = [
         OpKind::Mkdir,
         OpKind::CreateTrunc,
         OpKind::OpenAppend,
@@ -84,6 +88,7 @@ impl OpKind {
         OpKind::Lock,
         OpKind::Read,
         OpKind::Len,
+        OpKind::Flush,
     ];
 }
 
@@ -974,7 +979,8 @@ impl Write for SimFile {
         self.write_at_cursor(buf, false)
     }
     fn flush(&mut self) -> io::Result<()> {
-        Ok(())
+        let mut st = self.fs.shared.state.lock();
+        SimFs::enter(&mut st, OpKind::Flush, self.class)
     }
 }
 
